@@ -25,6 +25,8 @@ RULE = ('case = (stream, chunking, call history mixing sync/async, placement of 
 ASSUMPTIONS = ['the real SelectorEventLoop/_UnixReadPipeTransport run on the real descriptor; selector and loop.time are controlled',
                'reference = naive full re-search on the chunks in the order the object logged them (logfile_read), per call',
                'histories stop at the first EOF, as the statement does; deviation bound 1 (quick) / 2 (thorough)']
+EXHAUSTIVE = False      # complete only within the deviation bound, see BOUND_NOTE
+BOUND_NOTE = 'all schedules with at most 1 (quick) / 2 (thorough) non-default placements of peer actions are enumerated completely; schedules with more deviations are not explored'
 REQUIRED_FLAGS = {'async_match': 1, 'async_timeout': 1, 'async_eof': 1, 'mixed': 1, 'data_between_calls': 1}
 
 B = 0.25
